@@ -17,6 +17,21 @@ def frozen_params():
     return _FROZEN
 
 
+_KNOWN = None
+
+
+def known_fns():
+    """keys of the functions that existed when the rule tables were confirmed (tools/freeze_params.py)"""
+    global _KNOWN
+    if _KNOWN is None:
+        _KNOWN = set()
+        p = os.path.join(os.path.dirname(os.path.abspath(__file__)), "known_fns.json")
+        if os.path.exists(p) and not os.environ.get("CWMT_NO_FROZEN"):
+            with open(p) as fh:
+                _KNOWN = set(json.load(fh))
+    return _KNOWN
+
+
 class Fn:
     def __init__(self, d):
         self.d = d
@@ -97,6 +112,12 @@ class Facts:
         self.nonce = data.get("nonce", "")
         self.fns = {}
         self.dups = []
+        # A8: new private helpers are spliced into their callers (only for the crate the rule tables were frozen on)
+        self.inlined = {"spliced": {}, "removed": []}
+        known = known_fns()
+        if known and sum(1 for d in data["functions"] if d["key"] in known) >= 100 and not os.environ.get("CWMT_NO_INLINE"):
+            from . import inline
+            self.inlined = inline.normalise(data, known)
         for d in data["functions"]:
             f = Fn(d)
             if f.key in self.fns:
